@@ -8,7 +8,10 @@ Strings travel hex-encoded (two lower-case hex digits per byte, `-` for the empt
 * `norm <path>`                   → hex of `normalize path`
 * `host <remoteaddr>`             → `ok <hex>` or `err`  (`netutil.SplitHost`)
 * `req <base> <ua> <method> <path> <remote> (<name> <value>)*`
-    → `404` | `robots` | `500` | `proxy <path> <name>=<v>,<v>;…` over the watched header names. -/
+    → `404` | `robots` | `500` | `proxy <path> <name>=<v>,<v>;…` over the watched header names.
+* `wreq <base> <ua> <method> <target> <remote> (<name> <value>)*`
+    → `rejected` when `net/http` refuses the origin-form request target, otherwise as `req` with the
+      path that `parseTarget` derives from the raw target. -/
 namespace Agd.Driver.C19
 open Agd.LinkIP Agd.Driver
 
@@ -51,6 +54,12 @@ def showHdrs (h : Hdrs) : String :=
 
 def reqID : Str := ['I', 'D']
 
+def showResp : Resp → String
+  | .notFound => "404"
+  | .robots => "robots"
+  | .err500 => "500"
+  | .proxied path h => "proxy " ++ hex path ++ " " ++ showHdrs h
+
 def step (s : Unit) : List String → Unit × String
   | ["sp", m, p] => (s, showB (shouldProxy (unhex m) (unhex p)))
   | ["norm", p] => (s, hex (normalize (unhex p)))
@@ -61,11 +70,14 @@ def step (s : Unit) : List String → Unit × String
   | "req" :: base :: ua :: m :: p :: remote :: hs =>
     let e : Env := { base := unhex base, reqID := reqID, ua := unhex ua }
     let r : Req := { method := unhex m, path := unhex p, remote := unhex remote, hdrs := parseHdrs hs }
-    (s, match serve e r with
-        | .notFound => "404"
-        | .robots => "robots"
-        | .err500 => "500"
-        | .proxied path h => "proxy " ++ hex path ++ " " ++ showHdrs h)
+    (s, showResp (serve e r))
+  | "wreq" :: base :: ua :: m :: target :: remote :: hs =>
+    (s, match parseTarget (unhex target) with
+        | none => "rejected"
+        | some p =>
+          let e : Env := { base := unhex base, reqID := reqID, ua := unhex ua }
+          let r : Req := { method := unhex m, path := p, remote := unhex remote, hdrs := parseHdrs hs }
+          showResp (serve e r))
   | _ => (s, "bad-op")
 
 def main : IO Unit := loop step ()
